@@ -92,6 +92,28 @@ func findDefinitionTarget(journal *ast.Journal, pos protocol.Position) *definiti
 		}
 	}
 
+	// the name inside an account or commodity directive is an occurrence as well
+	for _, dir := range journal.Directives {
+		switch d := dir.(type) {
+		case ast.AccountDirective:
+			if d.Account.Name != "" && positionInRange(pos, d.Account.Range) {
+				return &definitionTarget{
+					context:     DefContextAccount,
+					name:        d.Account.Name,
+					symbolRange: astRangeToProtocol(d.Account.Range),
+				}
+			}
+		case ast.CommodityDirective:
+			if d.Commodity.Symbol != "" && positionInRange(pos, d.Commodity.Range) {
+				return &definitionTarget{
+					context:     DefContextCommodity,
+					name:        d.Commodity.Symbol,
+					symbolRange: astRangeToProtocol(d.Commodity.Range),
+				}
+			}
+		}
+	}
+
 	return nil
 }
 
